@@ -67,7 +67,8 @@ def family_lines(ctx, wd):
                     for q, inst in enumerate(pop):
                         ps = [c01.aval(v) for v in inst["params"]]
                         if q + 1 == pl["i"]:
-                            ps[pl["j"] - 1] = "$"
+                            lay = (pl["i"] + pl["j"] + int(strict)) % 5
+                            ps[pl["j"] - 1] = ["$", "$ /* unset */", "/* unset */ $", "\n  $\n", " $/* ; */"][lay]
                         lines.append("#%d=%s(%s);" % (inst["id"], inst["ent"].upper(), ",".join(ps)))
                     fid = pop[pl["i"] - 1]["id"]
                     touched = {fid}
@@ -152,9 +153,16 @@ def run(ctx):
     scripts, meta = [], {}
     # neighbours: thorough varies what surrounds the instance under test
     variants = [0] if ctx.quick else [0, 1, 2]
+    # record layout: what stands around the unset value - nothing, a comment after it, a comment before it, line breaks
+    # (separators from spec/P21Sep.tla; the layouts rotate with the case, the thorough tier takes every layout)
+    from vf import seps
+    sp = seps.Spacer("comments", ctx.seed)
+    LAY = [lambda: ("", ""), lambda: ("", " " + sp()), lambda: (sp() + " ", ""), lambda: ("\n  ", "\n"), lambda: (" ", sp())]
     for i, c in enumerate(cases):
-        for var in variants:
-            txt, where = kinds.missing_case(c)
+        for var in (variants if ctx.quick else [v * 10 + l for v in variants for l in range(len(LAY))]):
+            lay = (i + var) % len(LAY) if ctx.quick else var % 10
+            var = var if ctx.quick else var // 10
+            txt, where = kinds.missing_case(c, *LAY[lay]())
             if var == 0:
                 insts = ["TGT(1)", txt, "TGT(3)"]
                 idx = 1
@@ -164,7 +172,7 @@ def run(ctx):
             else:
                 insts = ["TGT(1)", txt, "O_ENUM(.RED.,$,.BLUE.)", "TGT(4)"]
                 idx = 1
-            tag = "%d_%d" % (i, var)
+            tag = "%d_%d_%d" % (i, var, lay)
             f = os.path.join(wd, "c%s.p21" % tag)
             open(f, "w").write(kinds.file_of(insts))
             out = os.path.join(wd, "o%s.p21" % tag)
